@@ -1,6 +1,7 @@
 CONSTANTS
   V = {"stop_nogate"}
   MaxN = 3
+  Vary = FALSE
 SPECIFICATION Spec
 INVARIANTS TypeOK StopOnlyIfStarted
 CHECK_DEADLOCK FALSE
